@@ -52,6 +52,7 @@ inductive NonTailStep : Expr → Expr → Prop
   | arrElem {es : List Expr} {e : Expr} : e ∈ es → NonTailStep (.arr es) e
   | defRhs {x : String} {e : Expr} : NonTailStep (.def_ x e) e
   | setRhs {x : String} {e : Expr} : NonTailStep (.set_ x e) e
+  | assignLhs {l r : Expr} : NonTailStep (.assign l r) l
   | assignRhs {l r : Expr} : NonTailStep (.assign l r) r
 
 /-- Reached through steps of either kind (the sub-expressions compiled into the same body). -/
